@@ -22,7 +22,8 @@ COMPONENTS = {"real": ["security.CertificateLibrary", "security.Certificate/OwnC
                        "security.SignService (senders, P2PCD notifications)", "security.SecurityCoder (OER)",
                        "PythonECDSABackend.sign/verify_with_pk"],
               "stub": ["virtual clock (TimeService.time)", "seeded ECDSA entropy (key generation, nonces)"]}
-ASSUMPTIONS = ["'configured root' = a certificate offered through add_root_certificate (or the constructor's root list) and present in the root store",
+ASSUMPTIONS = [
+    "chain-length budgets (minChainLength / chainLengthRange) of stored certificates are counted by probes, not judged: the statement's store clause names signature and permission containment only; for the issuing API only the depth budget is judged","'configured root' = a certificate offered through add_root_certificate (or the constructor's root list) and present in the root store",
                "permission containment is judged at PSID level (SSPs, eeType and regions are not judged)",
                "chain length is judged as an upper bound (certificates below the issuer <= minChainLength + chainLengthRange, -1 = unbounded); "
                "the lower bound (>= minChainLength) is only counted",
@@ -478,6 +479,11 @@ class Oracle:
                 sim.probe("own-store-entry-unjustified")
                 continue
             cat = _cat(reasons)
+            if cat.startswith("chain-"):
+                # The statement's store clause speaks of signature + permission containment only; the chain-length budget of the
+                # issuer (minChainLength / chainLengthRange, which the stack never evaluates on reception) is counted, not judged.
+                sim.probe("store-entry-beyond-chain-length:" + cat)
+                continue
             # key: the method that admits into this store / forgery kind / failed check.  The entry point of the history
             # (add_*, verify_sequence_of_certificates, verify, constructor) is in the detail: all of them admit through add_*.
             writer = "add_authorization_authority" if store == "aa" else "add_authorization_ticket"
@@ -654,8 +660,12 @@ class Oracle:
                             "op %d: %s returned a certificate that verifies under its issuer although %s; issuer issuing permissions %s, "
                             "certificate app %s issue %s" % (rec["idx"], e["method"], "; ".join(perm), _fmt_groups(ig), sc.app_psids(rdict),
                                                              _fmt_groups(sc.issue_groups(rdict))))
-            if chain:
-                cls = "range" if all(x.startswith("chain:range") for x in chain) else "depth"
+            if chain and all(x.startswith("chain:range") for x in chain):
+                # only minChainLength + chainLengthRange exceeds the issuer's reach; the stack never reads chainLengthRange
+                # and the statement speaks of the issuer's remaining chain length: counted, not judged
+                sim.probe("issue:verified-beyond-chain-range")
+            elif chain:
+                cls = "depth"
                 sim.violate(ID, "issued-beyond-chain-length", base + "/" + cls,
                             "op %d: %s returned a certificate that verifies under its issuer although the issuer's remaining chain length "
                             "does not allow it: %s; issuer %s, certificate issue groups %s"
